@@ -74,6 +74,7 @@ SEQ_TYPES = {"builtins.list", "builtins.str", "builtins.bytes", "builtins.tuple"
 # identity-dependent results: the operand domain is restricted to interpreter singletons
 DOMAIN_OVERRIDE = {
     "function:builtins.id": {0: ["None", "True", "0", "1", "''"]},
+    "function:builtins.hash": {0: [o for o in OBJS if o != "Box(1)"] + ["-1", "2**61 - 1", "frozenset({1})", "{1}"]},
 }
 # functions whose fixed-width results are unspecified out of range (covered by C15): small non-negative values
 NATIVE_CONV = {"mypy_extensions.i64", "mypy_extensions.i32", "mypy_extensions.i16", "mypy_extensions.u8"}
@@ -268,6 +269,41 @@ def _entry_units(e: dict, typings: list[str], quick: bool, add: Any, stmt_form: 
             add(e, typing, an2, d2, [f"if {guard}:", "    return '<other>'"] + stmts, ret)
 
 
+ELEM_TYPES: dict[str, tuple[str, list[str]]] = {
+    "builtins.list": ("List[int]", ["[]", "[1]", "[1, 2, 3]", "[2**64, 1]"]),
+    "builtins.dict": ("Dict[str, int]", ["{}", "{'a': 1}", "{'a': 1, 'zz': 2**64}"]),
+    "builtins.set": ("Set[int]", ["set()", "{1}", "{1, 2, 3}"]),
+    "builtins.frozenset": ("FrozenSet[int]", ["frozenset()", "frozenset({1, 2**64})"]),
+    "builtins.tuple": ("Tuple[int, ...]", ["()", "(1,)", "(1, 2, 3)"]),
+}
+ELEM_OBJ: list[tuple[str, list[str]]] = [("int", ["0", "1", "3", "2**64"]), ("str", ["'a'", "'zz'"])]
+
+
+def _elem_units(e: dict, quick: bool, add: Any, stmt_form: bool) -> None:
+    """Containers with precise element types (results are unboxed to the element type); every `object`
+    operand is tried as int and as str - mypy keeps the combinations that type-check."""
+    args = ["builtins.int" if a == "short_int" else a for a in e["args"]]
+    if not any(a in ELEM_TYPES for a in args) or any(a.startswith("union[") for a in args):
+        return
+    names = [f"a{i}" for i in range(len(args))]
+    stmts, ret = _expr(e, names, stmt_form)
+    obj_pos = [i for i, a in enumerate(args) if a == "builtins.object"]
+    for choice in itertools.product(range(len(ELEM_OBJ)), repeat=len(obj_pos)):
+        anns, doms = [], []
+        for i, a in enumerate(args):
+            if a in ELEM_TYPES:
+                anns.append(ELEM_TYPES[a][0])
+                doms.append(ELEM_TYPES[a][1])
+            elif a == "builtins.object":
+                t, dom = ELEM_OBJ[choice[obj_pos.index(i)]]
+                anns.append(t)
+                doms.append(dom)
+            else:
+                anns.append(_ann(a)[0])
+                doms.append(_domain(e, i, a, True))
+        add(e, "elem", anns, doms, stmts, ret, "(" + ",".join(anns) + ")")
+
+
 def family_a(quick: bool) -> tuple[list[dict], dict]:
     """Primitive registry sweep.  quick: exact typing + literal + condition variants only."""
     entries = registry_entries()
@@ -288,6 +324,11 @@ def family_a(quick: bool) -> tuple[list[dict], dict]:
             return
         name = f"a_{len(units):04d}"
         src = [f"def {name}({params}) -> Any:"] + ["    " + b for b in body] + [f"    return {ret}", ""]
+        try:
+            compile("\n".join(src), "<candidate>", "exec")
+        except SyntaxError:
+            seen[key] = {"entries": []}  # e.g. `0.bit_length()`: not a program
+            return
         prim = e["id"].split("#")[0]
         u = {"name": name, "family": "a", "construct": f"{prim}/{typing}{tag}",
              "sigkey": f"{prim}|{'generic' if typing == 'object' else 'prim'}", "entries": [e["id"]],
@@ -313,6 +354,8 @@ def family_a(quick: bool) -> tuple[list[dict], dict]:
             forms = [False, True] if _maybe_void(ev) else [False]
             for stmt_form in forms:
                 _entry_units(ev, typings, quick, add, stmt_form)
+                if not quick:
+                    _elem_units(ev, quick, add, stmt_form)
 
     # isinstance(x, T) for builtin classes (the one-argument registry entries are selected by the class)
     isi = [e for e in entries if e["name"] == "builtins.isinstance" and len(e["args"]) == 1]
@@ -362,23 +405,32 @@ def module_source(units: list[dict]) -> tuple[str, dict[str, tuple[int, int]]]:
     return "\n".join(lines) + "\n", spans
 
 
-def pack(units: list[dict], max_units: int) -> list[list[dict]]:
-    """Split a family's units into modules of at most max_units units (units with the same `group` stay
-    together)."""
+def weight(u: dict) -> float:
+    """Rough relative C-compile cost of a unit (used only to balance modules)."""
+    f = u["family"]
+    if f == "a":
+        return 1.0
+    if f == "b":
+        return 1.5
+    if f == "c":
+        return {"func": 1.0, "method": 1.0, "static": 1.0, "class": 1.5, "init": 2.5}[u["callee"]]
+    if f == "d":
+        return 4.0 if u["name"].startswith("dh_") else 6.0 if u["name"] == "dbits" else 1.5
+    return 3.0
+
+
+def pack(units: list[dict], capacity: float) -> list[list[dict]]:
+    """Split a family's units (in order) into modules of at most `capacity` total weight."""
     mods: list[list[dict]] = []
     cur: list[dict] = []
-    groups: list[list[dict]] = []
+    load = 0.0
     for u in units:
-        g = u.get("group")
-        if groups and g is not None and groups[-1][0].get("group") == g:
-            groups[-1].append(u)
-        else:
-            groups.append([u])
-    for g in groups:
-        if cur and len(cur) + len(g) > max_units:
+        w = weight(u)
+        if cur and load + w > capacity:
             mods.append(cur)
-            cur = []
-        cur = cur + g
+            cur, load = [], 0.0
+        cur.append(u)
+        load += w
     if cur:
         mods.append(cur)
     return mods
@@ -388,8 +440,6 @@ def strip(unit: dict) -> dict:
     """The part of a unit the driver needs."""
     return {k: unit[k] for k in ("name", "module", "family", "construct", "doms", "calls", "alias", "shapes") if k in unit}
 
-
-_ = (itertools,)
 
 
 # =========================================================================== family (c): call shapes
@@ -898,7 +948,7 @@ B_ANYITER = ["[]", "[2**70, 2]", "'ab'", "(1, 'z' * 2)", "{'a' * 2: 1}", "iter([
 # kind -> (params [(name, annotation, domain)], loop header over `x`, element expression, mutable container
 #          name or None, mutation statements available)
 B_KINDS: list[tuple[str, list[tuple[str, str, list[str]]], str, str, str | None]] = [
-    ("range(n)", [("n", "int", B_N + ["2**62 - 1 - 2**62 + 2"])], "for x in range(n)", "x", None),
+    ("range(n)", [("n", "int", B_N + ["2"])], "for x in range(n)", "x", None),
     ("range(a,b)", [("a", "int", B_START), ("d", "int", B_N)], "for x in range(a, a + d)", "x", None),
     ("range(a,b,1)", [("a", "int", B_START), ("d", "int", B_N)], "for x in range(a, a + d, 1)", "x", None),
     ("range(a,b,2)", [("a", "int", B_START), ("d", "int", B_N + ["4", "5"])], "for x in range(a, a + d, 2)", "x", None),
@@ -956,12 +1006,33 @@ B_MUT = {
 }
 
 
+def _b_helper(kind: str) -> str:
+    """The for_helpers.py generator class a loop over this iterable kind is expected to use."""
+    if kind.startswith("range(") and "step" not in kind:
+        return "ForRange"
+    if kind.startswith("enumerate(") and "start" not in kind:
+        return "ForEnumerate"
+    if kind.startswith("zip("):
+        return "ForZip"
+    if kind.split("[")[0] in ("list", "tuple", "str", "bytes") or kind.startswith("reversed("):
+        return "ForSequence"
+    if kind.startswith("dict"):
+        return "ForDictionary"
+    if kind == "native-generator":
+        return "ForNativeGenerator"
+    return "ForIterable"
+
+
 def _b_unit(idx: int, kind: str, params: list, header: str, elem: str, body: str, lines: list[str], extra_k: bool) -> dict:
     name = f"b_{idx:04d}"
     ps = list(params) + ([("k", "int", B_K)] if extra_k else [])
     sig = ", ".join(f"{n}: {a}" for n, a, _ in ps)
     src = [f"def {name}({sig}) -> Any:"] + ["    " + ln for ln in lines] + [""]
-    return {"name": name, "family": "b", "construct": f"for {kind} / {body}", "sigkey": f"{kind}|{body}",
+    # the three size-changing mutations of one container kind are one cause class
+    sig_body = body
+    if body.startswith("mutate-while-iterating:") and body.split(":")[1] not in ("rebind", "set-existing"):
+        sig_body = "mutate-while-iterating:resize"
+    return {"name": name, "family": "b", "construct": f"for {kind} / {body}", "sigkey": f"{_b_helper(kind)}|{sig_body}",
             "src": "\n".join(src), "doms": [d for _, _, d in ps],
             "calls": [f"M.{name}({', '.join(f'a{i}' for i in range(len(ps)))})"], "alias": False, "prelude": B_PRELUDE}
 
@@ -1088,7 +1159,7 @@ def uwide_{j}(o: B_{j}, x: object) -> Any:
 
 D_TYPES: list[tuple[str, str, str, list[str]]] = [
     # label, annotation, initial value (source), well-typed values the interpreter may assign
-    ("int", "int", "5", ["7", "2**70", "True"]),
+    ("int", "int", "5", ["7", "2**70", "-2**62 - 1"]),
     ("bool", "bool", "True", ["False"]),
     ("float", "float", "1.5", ["-0.0", "nan"]),
     ("str", "str", "'ab' * 2", ["''", "'\\xe9'"]),
@@ -1144,7 +1215,7 @@ def has_{k}(o: {n}) -> Any:
         steps = ", ".join("(" + ", ".join(x[1:] if isinstance(x, str) and x.startswith("\0") else repr(x) for x in st) + ")"
                           for st in sq)
         calls.append(f"apply_seq(M.{n}(a0), [{steps}])")
-    return {"name": f"dl_{k:03d}", "family": "d", "construct": f"attribute {tlabel} / {mode}", "sigkey": f"attribute|{tlabel}|{mode}",
+    return {"name": f"dl_{k:03d}", "family": "d", "construct": f"attribute {tlabel} / {mode}", "sigkey": f"attribute|{mode}",
             "src": src, "doms": [["True", "False"]], "calls": calls, "alias": False}
 
 
@@ -1176,7 +1247,8 @@ def dbits_set(o: DBits) -> Any:
             "src": src, "doms": [["0", "1", "2", "2**69", "2**70 - 1", "0x5555555555555555555", "2**32", "2**31 | 2**63 | 2**64"]],
             "calls": ["M.DBits(a0)", "M.dbits_set(M.DBits(a0))",
                       "apply_seq(M.DBits(a0), [('get', 'x0'), ('get', 'x1'), ('get', 'x31'), ('get', 'x32'), ('get', 'x63'), "
-                      "('get', 'x64'), ('get', 'x69'), ('set', 'x64', 2**70), ('get', 'x64'), ('has', 'x65')])"],
+                      "('get', 'x64'), ('get', 'x69'), ('set', 'x68', 2**70), ('get', 'x68'), ('set', 'x64', -5), ('get', 'x64'), "
+                      "('set', 'x66', 113.0), ('get', 'x66'), ('has', 'x65')])"],
             "alias": False}
 
 
